@@ -38,17 +38,23 @@ type vEvent struct {
 	Value string
 }
 
-func (r *vRecorder) OnJoin(id string)        { r.Events = append(r.Events, vEvent{Kind: "join", Node: id}) }
-func (r *vRecorder) OnLeave(id string)       { r.Events = append(r.Events, vEvent{Kind: "leave", Node: id}) }
-func (r *vRecorder) OnReachable(id string)   { r.Events = append(r.Events, vEvent{Kind: "reachable", Node: id}) }
-func (r *vRecorder) OnUnreachable(id string) { r.Events = append(r.Events, vEvent{Kind: "unreachable", Node: id}) }
+func (r *vRecorder) OnJoin(id string)  { r.Events = append(r.Events, vEvent{Kind: "join", Node: id}) }
+func (r *vRecorder) OnLeave(id string) { r.Events = append(r.Events, vEvent{Kind: "leave", Node: id}) }
+func (r *vRecorder) OnReachable(id string) {
+	r.Events = append(r.Events, vEvent{Kind: "reachable", Node: id})
+}
+func (r *vRecorder) OnUnreachable(id string) {
+	r.Events = append(r.Events, vEvent{Kind: "unreachable", Node: id})
+}
 func (r *vRecorder) OnUpsertKey(id, key, value string) {
 	r.Events = append(r.Events, vEvent{Kind: "upsert", Node: id, Key: key, Value: value})
 }
 func (r *vRecorder) OnDeleteKey(id, key string) {
 	r.Events = append(r.Events, vEvent{Kind: "delete", Node: id, Key: key})
 }
-func (r *vRecorder) OnExpired(id string) { r.Events = append(r.Events, vEvent{Kind: "expired", Node: id}) }
+func (r *vRecorder) OnExpired(id string) {
+	r.Events = append(r.Events, vEvent{Kind: "expired", Node: id})
+}
 
 func vNewState(localID string, w Watcher) *clusterState {
 	if w == nil {
